@@ -557,7 +557,7 @@ class Engine:
                         for (kind, var, flav) in self.inputs.values()
                         if kind == 'rat']
                 r, m2 = self._query(([extra] if extra is not None else []) + cons,
-                                    self.obl_ms)
+                                    min(self.feas_ms, 1000))
                 if r == 'sat':
                     out = {}
                     for name, (kind, var, flav) in self.inputs.items():
